@@ -404,7 +404,7 @@ func scenFifo(g *rand.Rand) (string, []string, error) {
 
 // a list created under a waited key by RENAME / LMOVE / a multi-element push serves the waiters
 func scenOtherProducers(g *rand.Rand) (string, []string, error) {
-	return scenOtherProducersV(g.Intn(7), g)
+	return scenOtherProducersV(g.Intn(8), g)
 }
 
 // one scenario per producer variant, so that every tier runs each of them at least once
@@ -447,6 +447,16 @@ func scenOtherProducersV(variant int, g *rand.Rand) (string, []string, error) {
 		w.do("SELECT", "0")
 		w.do("RPUSH", "k", v1, v2)
 		w.do("EXEC")
+	case 7:
+		// the waiters registered while the name was free; then a string (or hash) took the name; a list renamed
+		// onto it is a producer like any other
+		if g.Intn(2) == 0 {
+			w.do("SET", "k", "v")
+		} else {
+			w.do("HSET", "k", "f", "v")
+		}
+		w.push("src", 2)
+		w.do("RENAME", "src", "k")
 	case 0:
 		w.push("src", 2)
 		w.do("RENAME", "src", "k")
@@ -601,13 +611,22 @@ func scenTimeouts(g *rand.Rand) (string, []string, error) {
 }
 
 func scenUnblock(g *rand.Rand) (string, []string, error) {
+	mode := []string{"", "TIMEOUT", "ERROR"}[g.Intn(3)]
+	park := []string{"", "block.beforeregister", "block.beforecapture", "block.beforewait"}[g.Intn(4)]
+	return scenUnblockV(mode, park, g)
+}
+
+// every spelling of the unblock type against a client that is blocked when the request arrives
+func unblockVariant(mode string) func(g *rand.Rand) (string, []string, error) {
+	return func(g *rand.Rand) (string, []string, error) { return scenUnblockV(mode, "", g) }
+}
+
+func scenUnblockV(mode, park string, g *rand.Rand) (string, []string, error) {
 	w, err := newBWorld(3)
 	if err != nil {
 		return "", nil, err
 	}
 	defer w.close()
-	mode := []string{"", "TIMEOUT", "ERROR"}[g.Intn(3)]
-	park := []string{"", "block.beforeregister", "block.beforecapture", "block.beforewait"}[g.Intn(4)]
 	if park != "" {
 		w.srv.Ctl("PARK "+park+" "+w.clients[0].id, time.Second)
 	}
@@ -635,7 +654,7 @@ func scenUnblock(g *rand.Rand) (string, []string, error) {
 		if r == nil {
 			return "CLIENT UNBLOCK did not end the block", w.log, nil
 		}
-		if mode == "ERROR" {
+		if strings.EqualFold(mode, "ERROR") {
 			if r.Kind != '-' || !strings.HasPrefix(string(r.Str), "UNBLOCKED") {
 				return "CLIENT UNBLOCK ... ERROR ended the block with " + r.String(), w.log, nil
 			}
@@ -992,10 +1011,10 @@ func runBlocking(prop string, scen []func(g *rand.Rand) (string, []string, error
 func init() {
 	c11scen := runBlocking("C11",
 		[]func(g *rand.Rand) (string, []string, error){stolenVariant(0), stolenVariant(1), stolenVariant(2), stolenVariant(3), stolenVariant(4), scenStolen, oddElementVariant(0), oddElementVariant(1), oddElementVariant(2), oddElementVariant(3), oddElementVariant(4), scenTimeoutTie, scenMultiKey, scenFifo,
-			otherProducerVariant(0), otherProducerVariant(1), otherProducerVariant(2), otherProducerVariant(3), otherProducerVariant(4), otherProducerVariant(5), otherProducerVariant(6),
+			otherProducerVariant(0), otherProducerVariant(1), otherProducerVariant(2), otherProducerVariant(3), otherProducerVariant(4), otherProducerVariant(5), otherProducerVariant(6), otherProducerVariant(7),
 			scenOtherProducers, scenRandom, scenRandom, scenRandom},
-		[]string{"stolen-wakeup", "stolen-wakeup", "stolen-wakeup", "stolen-wakeup", "stolen-wakeup", "stolen-wakeup", "opaque-elements", "opaque-elements", "opaque-elements", "opaque-elements", "opaque-elements", "timeout-tie", "multi-key", "fifo", "other-producers", "other-producers", "other-producers", "other-producers", "other-producers", "other-producers", "other-producers",
-			"other-producers", "random", "random", "random"}, 54, 800)
+		[]string{"stolen-wakeup", "stolen-wakeup", "stolen-wakeup", "stolen-wakeup", "stolen-wakeup", "stolen-wakeup", "opaque-elements", "opaque-elements", "opaque-elements", "opaque-elements", "opaque-elements", "timeout-tie", "multi-key", "fifo", "other-producers", "other-producers", "other-producers", "other-producers", "other-producers", "other-producers", "other-producers", "other-producers",
+			"other-producers", "random", "random", "random"}, 56, 800)
 	streams["C11"] = func(cfg runCfg, res *Result) error {
 		if os.Getenv("VERIF_ONLY_LOCKSTEP") == "" {
 			if err := c11scen(cfg, res); err != nil || cfg.replay != "" {
@@ -1010,11 +1029,11 @@ func init() {
 	}
 	specialReplay["C11"] = true
 	streams["C12"] = runBlocking("C12",
-		[]func(g *rand.Rand) (string, []string, error){scenTimeouts, scenUnblock, scenStaleUnblock,
+		[]func(g *rand.Rand) (string, []string, error){scenTimeouts, unblockVariant(""), unblockVariant("TIMEOUT"), unblockVariant("timeout"), unblockVariant("ERROR"), unblockVariant("error"), scenUnblock, scenStaleUnblock,
 			func(g *rand.Rand) (string, []string, error) { return scenDisconnect(g, false) },
 			func(g *rand.Rand) (string, []string, error) { return scenDisconnect(g, true) },
 			func(g *rand.Rand) (string, []string, error) { return scenDisconnect(g, true) }, scenTimeoutTie},
-		[]string{"timeouts", "unblock", "stale-unblock", "kill", "peer-close", "peer-close", "timeout-tie"}, 18, 300)
+		[]string{"timeouts", "unblock", "unblock", "unblock", "unblock", "unblock", "unblock", "stale-unblock", "kill", "peer-close", "peer-close", "timeout-tie"}, 24, 300)
 	specialReplay["C12"] = true
 	streams["C14B"] = runBlocking("C14", []func(g *rand.Rand) (string, []string, error){scenFlushBlocked}, []string{"flush-while-blocked"}, 6, 120)
 	specialReplay["C14B"] = true
